@@ -12,6 +12,7 @@ fixed('C08', '703e765', "is_parent_around used '<': a pre-terminal whose adoptin
       {'ruleset': 'A1D1 with group probabilities 0.5/0.3/0.2 x 0.5/0.3/0.2', 'cut': 'quit at the pre-terminal with probability 0.09'}, 'F-C08')
 fixed('C09', '1320342', 'print_banner() began with a bare print(): first stdout line of every run was empty', {'cmd': 'pcfg_guesser.py -r <any> -n 3'}, 'F-C09')
 fixed('C09', '0e5d105', 'error paths of the guesser printed diagnostics to stdout (unwritable .sav message between guesses, --limit validation, "Exiting", loader and OMEN load errors)', {'cmd': 'pcfg_guesser.py -r R -s S  with S.sav being a directory', 'stdout': '[Errno 21] Is a directory: ... / Error writing sessiong restore file'}, 'F-C09b')
+fixed('C16', '7b05ecf', 'random_walk compared running sums with an unscaled uniform draw: on a ruleset whose probabilities do not add up to 1 (edit_rules output, rounding) a draw above the total selected no base structure (IndexError in create_guesses) or silently kept group 0', {'ruleset': 'base structures summing to 0.6', 'draw': 'u = 0.8'}, 'F-C16')
 fixed('C12', 'e621645', "generation loop treated 'keypress thread not alive' as quit: EOF, /dev/null, closed stdin or an exception in the status printer truncated the run; with the thread parked between should_exit=True and return a Markov level was abandoned while the run went on",
       {'stdin': ['pipe at EOF', '/dev/null', 'closed fd 0'], 'observed': '48 / 48 / 0 of 4011 guesses'}, 'F-C12')
 fixed('C12', '916fce6', "keypress() returned on an exception from the status report before looking at the input: a 'q' typed while a restored OMEN remainder is replayed (status report indexes grammar['M'] with a level number -> IndexError) never set should_exit", {'history': 'quit inside a Markov level, --load, q during the replayed remainder', 'ruleset': 'fewer entries in pcfg_omen_prob.txt than the interrupted level number'}, 'F-C12b')
@@ -35,6 +36,8 @@ finding('C05', 'len-changing-lower', 'password containing U+0130 (the only chara
 finding('C05', 'keyboard-walk-recursion-depth', 'password made of ~1000 separate keyboard walks: detect_keyboard_walk recurses once per walk and overflows the interpreter stack -> RecursionError aborts parsing (F-C05b); only the thorough tier generates such input', {'password': "'1qaz2wsx3edc4rfv' * 250"}, 'F-C05b')
 
 finding('C13', 'non-reversible-case', 'candidate containing a letter whose case mapping is not one-to-one (title-case U+01C5, capital sharp s U+1E9E, ...): the scorer lower-cases + masks and returns p > 0, the guesser can only emit lower() or upper() of the stored word, never the candidate itself (F-C13)', {'training': ['\u01c5ungla'], 'candidate': '\u01c5ungla', 'score': '> 0', 'guesser': 'emits \u01c6ungla only'}, 'F-C13')
+
+finding('C20', 'context-label-length', 'edit_rules counts a context segment X1 as length 1 although context strings have 2-4 characters: a structure with an X label can survive a length filter and still generate guesses outside the requested bounds (F-C20)', {'structure': 'X1D1', 'options': '--max_length 2', 'guess': 'No.11 (length 5)'}, 'F-C20')
 
 json.dump(F, open('/verif/known_findings.json', 'w'), indent=1)
 print(len(F), 'entries')
